@@ -23,4 +23,4 @@ one() {
   git -C /repo worktree remove --force $WT
 }
 export -f one
-ls -d /verif/refactors/*/ | sed 's:/$::' | xargs -P $J -I{} bash -c 'one {}'
+if [ -n "${TAGS:-}" ]; then for t in $TAGS; do echo /verif/refactors/$t; done; else ls -d /verif/refactors/*/ | sed "s:/$::"; fi | xargs -P $J -I{} bash -c 'one {}'
